@@ -67,6 +67,8 @@ type rec struct {
 	Err    int  `json:"err"`    // reported offset - true offset (theta in force at t1), ns, clamped
 	Rtd    int  `json:"rtd"`    // (t1-t0-t1Corr) + (t3-t2-t3Corr), ns, clamped
 	ThSame bool `json:"thsame"` // server clock not stepped between t1 and t2
+	T3d    int  `json:"t3d"`    // t3 - send time of the latest Sync-typed delivery (ns, clamped; diagnostic)
+	NoTs   bool `json:"nots"`   // the client logged a missing kernel rx timestamp during this call (diagnostic)
 	// sresp: a datagram the REAL server sent
 	Paired bool `json:"paired"`
 	PortOk bool `json:"portok"`
@@ -76,10 +78,9 @@ type rec struct {
 
 const (
 	clampNs   = 1_000_000_000
-	tolWin    = 2 * time.Millisecond
 	early     = 50 * time.Microsecond
 	residence = 600 * time.Microsecond
-	callTO    = 250 * time.Millisecond
+	callTO    = 150 * time.Millisecond
 )
 
 func clamp(d time.Duration) int {
@@ -97,6 +98,8 @@ type exch struct {
 	port     uint16
 	seq      uint16
 	arr0     time.Time
+	arrFu    time.Time
+	start    time.Time // the call was started after this: t0 in [start, arr0]
 	fs, ff   *tsConn // real mode: forwarding sockets (Sync, Follow_Up)
 	fwdSync  []time.Time
 	fwdFu    []time.Time
@@ -123,7 +126,9 @@ type delivery struct {
 	kind   string
 	h, n   int
 	src    string
-	at     time.Time
+	at     time.Time // just before the send
+	after  time.Time // just after the send returned: on loopback the receiver's kernel rx timestamp lies in [at, after]
+	until  time.Time // the client's reaction was observed by then (bounds a software rx timestamp)
 }
 
 type runner struct {
@@ -142,6 +147,8 @@ type runner struct {
 	dels  []delivery
 	byH   map[int]*Pairing // schedule's pairing number -> pairing of the stand-in server
 	recvd map[int]LogRec   // last "received response" per client
+	nots  map[int]bool
+	txfail map[int]int
 	nacc  int
 	// real mode
 	reqlog   []sreq
@@ -186,6 +193,17 @@ func classify(res MeasureResult) string {
 	return "error"
 }
 
+func (r *runner) note(k *cli, lr LogRec) {
+	switch lr.Msg {
+	case "received response":
+		r.recvd[k.id] = lr
+	case "failed to read packet rx timestamp":
+		r.nots[k.id] = true
+	case "failed to read packet tx timestamp":
+		r.txfail[k.id]++
+	}
+}
+
 func (r *runner) waitDone(k *cli) (MeasureResult, bool) {
 	select {
 	case res := <-k.done:
@@ -197,20 +215,30 @@ func (r *runner) waitDone(k *cli) (MeasureResult, bool) {
 }
 
 // await tells what the client did with the datagram just delivered.
-func (r *runner) await(k *cli) (string, MeasureResult) {
-	quiet := time.After(3 * time.Millisecond)
+func (r *runner) await(k *cli, want string) (string, MeasureResult) {
+	// no reaction is the reaction to a datagram that is stored; where the schedule predicts a
+	// visible reaction, wait for it longer (the machine may be busy)
+	q := 3 * time.Millisecond
+	if want != "stored" && want != "" {
+		q = 60 * time.Millisecond
+	}
+	quiet := time.After(q)
 	for {
 		select {
 		case lr := <-k.logs:
+			r.note(k, lr)
 			switch lr.Msg {
 			case "received response":
-				r.recvd[k.id] = lr
 				quiet = time.After(200 * time.Millisecond)
 			case "received unexpected message", "failed to read packet: unexpected source",
 				"failed to decode packet payload":
 				return "skip", MeasureResult{}
 			}
 		case res := <-k.done:
+			// the log records of the evaluation precede the return
+			for len(k.logs) > 0 {
+				r.note(k, <-k.logs)
+			}
 			return classify(res), res
 		case <-quiet:
 			return "stored", MeasureResult{}
@@ -229,8 +257,10 @@ func (r *runner) send(mv move) bool {
 		<-k.done
 	}
 	k.drainLogs()
+	r.nots[k.id], r.txfail[k.id] = false, 0
+	t00 := time.Now().UTC()
 	k.start(r.ep.A, callTO)
-	e := &exch{ex: mv.Ex, cl: mv.Cl}
+	e := &exch{ex: mv.Ex, cl: mv.Cl, start: t00}
 	var syncB, fuB []byte
 	deadline := time.After(2 * time.Second)
 	for syncB == nil || fuB == nil {
@@ -242,7 +272,7 @@ func (r *runner) send(mv move) bool {
 			if a.Port == csptp.EventPortIP && syncB == nil {
 				syncB, e.arr0, e.port = a.B, a.At, a.Src.Port()
 			} else if a.Port == csptp.GeneralPortIP && fuB == nil {
-				fuB = a.B
+				fuB, e.arrFu = a.B, a.At
 				if e.port == 0 {
 					e.port = a.Src.Port()
 				}
@@ -371,13 +401,16 @@ func (r *runner) crecv(mv move) {
 		r.out.Emit(rc)
 		return
 	}
-	k.drainLogs()
-	at, err := r.ep.sock(f.src).write(f.b, f.dst)
+	for len(k.logs) > 0 {
+		r.note(k, <-k.logs)
+	}
+	at, err := r.ep.sock(f.src).deliver(f.b, f.dst)
 	if err != nil {
 		r.t.Fatalf("deliver failed: %v", err)
 	}
-	r.dels = append(r.dels, delivery{cl: mv.Cl, ex: e.ex, kind: f.kind, h: f.h, n: f.n, src: f.src, at: at})
-	got, res := r.await(k)
+	r.dels = append(r.dels, delivery{cl: mv.Cl, ex: e.ex, kind: f.kind, h: f.h, n: f.n, src: f.src, at: at, after: time.Now().UTC()})
+	got, res := r.await(k, mv.Res)
+	r.dels[len(r.dels)-1].until = time.Now().UTC()
 	rc.Got = got
 	if got == "ok" {
 		rc.Ev = "accept"
@@ -390,6 +423,7 @@ func (r *runner) crecv(mv move) {
 
 func (r *runner) fillAccept(rc *rec, k *cli, e *exch, res MeasureResult) {
 	lr := r.recvd[k.id]
+	rc.NoTs = r.nots[k.id]
 	off := res.Off
 	t1 := csptp.TimeFromTimestamp(lr.TLV.RequestIngressTimestamp)
 	t2 := csptp.TimeFromTimestamp(lr.M1.Timestamp)
@@ -419,7 +453,12 @@ func (r *runner) fillAccept(rc *rec, k *cli, e *exch, res MeasureResult) {
 		if d.cl != k.id || d.ex != e.ex || len(dBytesKind(d.kind)) == 0 {
 			continue
 		}
-		if !t3.Before(d.at.Add(-early)) && !t3.After(d.at.Add(tolWin)) {
+		rc.T3d = clamp(t3.Sub(d.at))
+		hi := d.after.Add(early)
+		if rc.NoTs {
+			hi = d.until
+		}
+		if !t3.Before(d.at.Add(-early)) && !t3.After(hi) {
 			d3 = d
 		}
 	}
@@ -444,8 +483,14 @@ func (r *runner) fillAccept(rc *rec, k *cli, e *exch, res MeasureResult) {
 	a := t1.Sub(e.arr0) - c1
 	b := t3.Sub(t2) - c3
 	d := 2*off - (a - b) // = arr0 - t0 (+- rounding) if the offset is ClockOffset of these values
-	rc.Reco = d >= -early-2 && d <= tolWin+2
-	rc.Rtd = clamp(a + b)
+	lo := -early - 2
+	if r.txfail[k.id] >= 2 {
+		// the client could not read the Sync's kernel tx timestamp and used its clock, before it sent the Follow_Up
+		lo = -e.arrFu.Sub(e.arr0) - early
+	}
+	rc.Reco = d >= lo && d <= e.arr0.Sub(e.start)+early
+	// with t0 = arr0 - d: (t1 - t0 - t1Corr) + (t3 - t2 - t3Corr)
+	rc.Rtd = clamp(a + d + b)
 	if p1 != nil {
 		rc.Err = clamp(off - p1.Th1)
 		rc.ThSame = p2 != nil && p1.Th1 == p2.Th2
@@ -551,7 +596,7 @@ func (r *runner) sresp(cl int, port uint16, b []byte, at time.Time, src netip.Ad
 				t1 := csptp.TimeFromTimestamp(tlv.RequestIngressTimestamp)
 				for _, q := range r.reqlog {
 					if q.cl == cl && q.kind == "sync" && q.seq == m.SequenceID &&
-						!t1.Before(q.at.Add(-early)) && !t1.After(q.at.Add(tolWin)) {
+						!t1.Before(q.at.Add(-early)) && !t1.After(at.Add(early)) {
 						rc.Own = true
 					}
 				}
@@ -671,7 +716,7 @@ func (r *runner) run(sc []move) {
 func newRunner(t *testing.T, ep *Endpoint, mode string, out *vio.Out, rng *rand.Rand, beh int) *runner {
 	r := &runner{t: t, ep: ep, mode: mode, out: out, rng: rng, beh: beh, clis: map[int]*cli{}, exs: map[int]*exch{},
 		cur: map[int]*exch{}, reqs: map[rkey]*inflight{}, resps: map[pkey]*inflight{}, byH: map[int]*Pairing{},
-		recvd: map[int]LogRec{}}
+		recvd: map[int]LogRec{}, nots: map[int]bool{}, txfail: map[int]int{}}
 	if mode == "sim" {
 		r.srv = NewSimServer()
 	}
